@@ -254,8 +254,10 @@ struct Case {
 fn gen_map(seed: u64, index: u64, thorough: bool) -> Case {
     let mut rng = Rng::derive(seed, "c06-map", index);
     let specials = special_tags();
-    let (n, shape): (usize, &'static str) = match index % 16 {
-        0 => ((index / 16 % 4) as usize, "0-3"),
+    // (the selector must not be a function of index % n_shards)
+    let sel = (index / 16 + index % 16) % 16;
+    let (n, shape): (usize, &'static str) = match sel {
+        0 => (rng.below(4) as usize, "0-3"),
         1..=5 => (rng.range(1, 16) as usize, "small"),
         6..=9 => (rng.range(17, 64) as usize, "medium"),
         10 => (
@@ -266,7 +268,7 @@ fn gen_map(seed: u64, index: u64, thorough: bool) -> Case {
         12 => (19 + rng.below(4) as usize, "recommended-ttf"),
         13 => (8 + rng.below(4) as usize, "recommended-cff"),
         14 => {
-            if index % 64 == 14 {
+            if rng.chance(1, 4) {
                 (*rng.pick(&[511usize, 512, 513, 1000, 2047, 2048, 4095]), "huge-count")
             } else {
                 (rng.range(64, 80) as usize, "64+")
@@ -931,7 +933,7 @@ fn run_one(ctx: &mut Ctx, rep: &mut Reporter, case: &Case, corpus: &[vf_core::Co
 }
 
 fn n_cases(ctx: &Ctx) -> u64 {
-    ctx.tier.pick(2400, 24000)
+    ctx.tier.pick(64_000, 800_000)
 }
 
 pub fn run(ctx: &mut Ctx, _args: &Args) {
@@ -991,7 +993,7 @@ fn probe_limit(ctx: &mut Ctx) {
             Err(p) => {
                 ctx.count(&format!("limit_probe_panicked:{}", n), 1);
                 if p.in_repo() {
-                    let sig = format!("build-panics:n_tables={}:{}", n, p.signature());
+                    let sig = format!("build-panics:n_tables={}", n);
                     ctx.violation(&sig, json!({"n_tables": n, "panic": {"file": p.file, "line": p.line, "msg": p.msg}}), None);
                 } else {
                     ctx.inconclusive(format!("harness panic in limit probe {}:{}", p.file, p.line));
